@@ -323,6 +323,9 @@ impl Ctx {
             cases,
             failure_persistence: None,
             max_shrink_iters: 4096,
+            // failures that show as a bounded wait (a call that never returns) cost seconds per shrink step: the shrunk
+            // case may then be less than minimal, but the violation is reported instead of running into the watchdog
+            max_shrink_time: 90_000,
             max_global_rejects: 1 << 20,
             ..Config::default()
         };
